@@ -937,13 +937,44 @@ theorem fibreMax_is_max (a : NDArray K) (ax : Nat) (i : Idx) (hn : a.shape.getD 
 end FM
 
 /-- **softmax / log_softmax: acceptance.**  Accepted exactly when `dim` normalises to an axis of the
-    operand (`-ndim ≤ dim < ndim`; so every `dim` is rejected for a 0-d operand) and that axis is
-    not empty. -/
+    operand (`-ndim ≤ dim < ndim`) and that axis is not empty — or the operand is 0-d and `dim` is `0` / `-1`
+    (NumPy's `max` / `sum` reductions accept exactly these two int axes on a 0-d array and reduce nothing;
+    every other `dim` is rejected for a 0-d operand: `softmax_zero_dim_accepts`). -/
 theorem softmax_accepts_iff (a : NDArray ℝ) (axis : Int) :
-    ((∃ y, softmaxForward a axis = some y) ↔ ∃ ax, normAxis a.shape.length axis = some ax ∧ a.shape.getD ax 0 ≠ 0) ∧
-    ((∃ y, logSoftmaxForward a axis = some y) ↔ ∃ ax, normAxis a.shape.length axis = some ax ∧ a.shape.getD ax 0 ≠ 0) := by
-  refine ⟨⟨fun ⟨y, h⟩ => sm_softmaxForward_some a y axis h, fun ⟨ax, h1, h2⟩ => ⟨_, sm_softmaxForward_eq a axis ax h1 h2⟩⟩,
-    ⟨fun ⟨y, h⟩ => sm_logSoftmaxForward_some a y axis h, fun ⟨ax, h1, h2⟩ => ⟨_, sm_logSoftmaxForward_eq a axis ax h1 h2⟩⟩⟩
+    ((∃ y, softmaxForward a axis = some y) ↔
+      (a.shape = [] ∧ (axis = 0 ∨ axis = -1)) ∨
+      ∃ ax, normAxis a.shape.length axis = some ax ∧ a.shape.getD ax 0 ≠ 0) ∧
+    ((∃ y, logSoftmaxForward a axis = some y) ↔
+      (a.shape = [] ∧ (axis = 0 ∨ axis = -1)) ∨
+      ∃ ax, normAxis a.shape.length axis = some ax ∧ a.shape.getD ax 0 ≠ 0) := by
+  refine ⟨⟨fun ⟨y, h⟩ => ?_, ?_⟩, ⟨fun ⟨y, h⟩ => ?_, ?_⟩⟩
+  · by_cases h0 : zeroDimAxis a.shape axis
+    · exact Or.inl h0
+    · exact Or.inr (sm_softmaxForward_some a y axis h0 h)
+  · rintro (h0 | ⟨ax, h1, h2⟩)
+    · exact ⟨_, sm_softmaxForward_zero a axis h0⟩
+    · exact ⟨_, sm_softmaxForward_eq a axis ax h1 h2⟩
+  · by_cases h0 : zeroDimAxis a.shape axis
+    · exact Or.inl h0
+    · exact Or.inr (sm_logSoftmaxForward_some a y axis h0 h)
+  · rintro (h0 | ⟨ax, h1, h2⟩)
+    · exact ⟨_, sm_logSoftmaxForward_zero a axis h0⟩
+    · exact ⟨_, sm_logSoftmaxForward_eq a axis ax h1 h2⟩
+
+/-! ### the 0-d operand -/
+
+/-- on a 0-d operand `softmax` / `log_softmax` accept exactly `dim = 0` and `dim = −1`
+    (instance of `softmax_accepts_iff`) -/
+theorem softmax_zero_dim_accepts (x : NDArray ℝ) (hs : x.shape = []) (d : Int) :
+    ((∃ y, softmaxForward x d = some y) ↔ d = 0 ∨ d = -1) ∧
+    ((∃ y, logSoftmaxForward x d = some y) ↔ d = 0 ∨ d = -1) := by
+  have hno : ¬ ∃ ax, normAxis x.shape.length d = some ax ∧ x.shape.getD ax 0 ≠ 0 := by
+    rintro ⟨ax, hax, -⟩
+    have := Proofs.Adjoint.normAxis_lt hax
+    simp [hs] at this
+  obtain ⟨h1, h2⟩ := softmax_accepts_iff x d
+  rw [h1, h2]
+  simp [hs, hno]
 
 /-- **softmax along any axis** (over ℝ).  Same shape as the operand; for every index `i`, with
     `i[ax ↦ t]` running over the fibre of `i` along the axis and `M = fibreMax` the maximum of that fibre
@@ -952,6 +983,7 @@ theorem softmax_accepts_iff (a : NDArray ℝ) (axis : Int) :
     `       = exp(x[i]) / Σ_t exp(x[i[ax ↦ t]])` (the unshifted definition);
     every entry is positive and every fibre sums to 1. -/
 theorem softmax_spec (a y : NDArray ℝ) (axis : Int) (h : softmaxForward a axis = some y) :
+    (a.shape = [] ∧ (axis = 0 ∨ axis = -1) ∧ y = ⟨[], [1]⟩) ∨
     ∃ ax, normAxis a.shape.length axis = some ax ∧ a.shape.getD ax 0 ≠ 0 ∧ y.shape = a.shape ∧ y.WF ∧
       ∀ i, validIdx a.shape i →
         ((∃ t, t < a.shape.getD ax 0 ∧ fibreMax a ax i = a.get (i.set ax t)) ∧
@@ -961,7 +993,12 @@ theorem softmax_spec (a y : NDArray ℝ) (axis : Int) (h : softmaxForward a axis
         y.get i = Real.exp (a.get i) / ∑ t ∈ range (a.shape.getD ax 0), Real.exp (a.get (i.set ax t)) ∧
         0 < y.get i ∧
         ∑ t ∈ range (a.shape.getD ax 0), y.get (i.set ax t) = 1 := by
-  obtain ⟨ax, hax, hn⟩ := sm_softmaxForward_some a y axis h
+  by_cases h0 : zeroDimAxis a.shape axis
+  · left
+    rw [sm_softmaxForward_zero a axis h0] at h
+    exact ⟨h0.1, h0.2, (Option.some.inj h).symm⟩
+  right
+  obtain ⟨ax, hax, hn⟩ := sm_softmaxForward_some a y axis h0 h
   have hy := sm_softmaxForward_eq a axis ax hax hn
   rw [h] at hy
   have hy' := Option.some.inj hy
@@ -990,13 +1027,19 @@ theorem softmax_spec (a y : NDArray ℝ) (axis : Int) (h : softmaxForward a axis
     `out[i] = x[i] − (M + log Σ_t exp(x[i[ax ↦ t]] − M))` (what is computed, `M` the fibre maximum)
     `       = x[i] − log Σ_t exp(x[i[ax ↦ t]])` (log-sum-exp), and `exp(out[i])` is the softmax entry. -/
 theorem log_softmax_spec (a y : NDArray ℝ) (axis : Int) (h : logSoftmaxForward a axis = some y) :
+    (a.shape = [] ∧ (axis = 0 ∨ axis = -1) ∧ y = ⟨[], [0]⟩) ∨
     ∃ ax, normAxis a.shape.length axis = some ax ∧ a.shape.getD ax 0 ≠ 0 ∧ y.shape = a.shape ∧ y.WF ∧
       ∀ i, validIdx a.shape i →
         y.get i = a.get i - (fibreMax a ax i +
           Real.log (∑ t ∈ range (a.shape.getD ax 0), Real.exp (a.get (i.set ax t) - fibreMax a ax i))) ∧
         y.get i = a.get i - Real.log (∑ t ∈ range (a.shape.getD ax 0), Real.exp (a.get (i.set ax t))) ∧
         Real.exp (y.get i) = Real.exp (a.get i) / ∑ t ∈ range (a.shape.getD ax 0), Real.exp (a.get (i.set ax t)) := by
-  obtain ⟨ax, hax, hn⟩ := sm_logSoftmaxForward_some a y axis h
+  by_cases h0 : zeroDimAxis a.shape axis
+  · left
+    rw [sm_logSoftmaxForward_zero a axis h0] at h
+    exact ⟨h0.1, h0.2, (Option.some.inj h).symm⟩
+  right
+  obtain ⟨ax, hax, hn⟩ := sm_logSoftmaxForward_some a y axis h0 h
   have hy := sm_logSoftmaxForward_eq a axis ax hax hn
   rw [h] at hy
   have hy' := Option.some.inj hy
@@ -1011,10 +1054,28 @@ theorem log_softmax_spec (a y : NDArray ℝ) (axis : Int) (h : logSoftmaxForward
 
 
 example : ∃ y, softmaxForward (⟨[2, 2], [1, 2, 3, 4]⟩ : NDArray ℝ) (-1) = some y :=
-  (softmax_accepts_iff _ _).1.2 ⟨1, rfl, by decide⟩
+  (softmax_accepts_iff _ _).1.2 (Or.inr ⟨1, rfl, by decide⟩)
 
 example : ∃ y, logSoftmaxForward (⟨[2, 2], [1, 2, 3, 4]⟩ : NDArray ℝ) 0 = some y :=
-  (softmax_accepts_iff _ _).2.2 ⟨0, rfl, by decide⟩
+  (softmax_accepts_iff _ _).2.2 (Or.inr ⟨0, rfl, by decide⟩)
+
+/-! non-vacuity of the 0-d branch: the accepted calls (value, gradient), the rejected neighbours -/
+example : softmaxForward (⟨[], [3]⟩ : NDArray ℝ) 0 = some ⟨[], [1]⟩ := softmax_zero_dim _ rfl 0 (Or.inl rfl)
+example : logSoftmaxForward (⟨[], [3]⟩ : NDArray ℝ) (-1) = some ⟨[], [0]⟩ := log_softmax_zero_dim _ rfl (-1) (Or.inr rfl)
+example : softmaxBackward (⟨[], [5]⟩ : NDArray ℝ) ⟨[], [1]⟩ (-1) = some ⟨[], [0]⟩ :=
+  softmax_zero_dim_grad ⟨[], [3]⟩ _ _ rfl (-1) (Or.inr rfl) (softmax_zero_dim _ rfl (-1) (Or.inr rfl))
+example : logSoftmaxBackward (⟨[], [5]⟩ : NDArray ℝ) ⟨[], [0]⟩ 0 = some ⟨[], [0]⟩ :=
+  log_softmax_zero_dim_grad ⟨[], [3]⟩ _ _ rfl 0 (Or.inl rfl) (log_softmax_zero_dim _ rfl 0 (Or.inl rfl))
+example : softmaxForward (⟨[], [3]⟩ : NDArray ℝ) 1 = none := by
+  have h := (softmax_zero_dim_accepts (⟨[], [3]⟩ : NDArray ℝ) rfl 1).1
+  cases hh : softmaxForward (⟨[], [3]⟩ : NDArray ℝ) 1 with
+  | none => rfl
+  | some y => exact absurd (h.1 ⟨y, hh⟩) (by decide)
+example : logSoftmaxForward (⟨[], [3]⟩ : NDArray ℝ) (-2) = none := by
+  have h := (softmax_zero_dim_accepts (⟨[], [3]⟩ : NDArray ℝ) rfl (-2)).2
+  cases hh : logSoftmaxForward (⟨[], [3]⟩ : NDArray ℝ) (-2) with
+  | none => rfl
+  | some y => exact absurd (h.1 ⟨y, hh⟩) (by decide)
 
 end Softmax
 
@@ -1113,7 +1174,8 @@ theorem cross_entropy_spec (x : NDArray ℝ) (labels : List Nat) :
         simp only [h2, hls, if_false, Option.bind_eq_bind, Option.bind_some] at h
         have h' : nllForward ls labels = some y := by simpa using h
         obtain ⟨n, c, hs, hl, hall, hy⟩ := sn_nll_inv ls y labels h'
-        obtain ⟨ax, hax, hn, hlss, -, -⟩ := log_softmax_spec x ls 1 hls
+        obtain ⟨-, h01, -⟩ | ⟨ax, hax, hn, hlss, -, -⟩ := log_softmax_spec x ls 1 hls
+        · exact absurd h01 (by decide)
         rw [hlss] at hs
         rw [hs] at hax hn
         have hax1 : ax = 1 := by
@@ -1143,7 +1205,8 @@ theorem cross_entropy_spec (x : NDArray ℝ) (labels : List Nat) :
     obtain ⟨n, c, ls, hs, hc, hl, hall, hls, hy⟩ := hinv y h
     refine ⟨n, c, hs, by rw [hy]; rfl, by rw [hy]; exact ofFn_wf _ _, ?_⟩
     intro i hi
-    obtain ⟨ax, hax, hn, hlss, -, hlsget⟩ := log_softmax_spec x ls 1 hls
+    obtain ⟨-, h01, -⟩ | ⟨ax, hax, hn, hlss, -, hlsget⟩ := log_softmax_spec x ls 1 hls
+    · exact absurd h01 (by decide)
     have hax1 : ax = 1 := by
       have : normAxis 2 1 = some 1 := rfl
       rw [hs] at hax
